@@ -30,6 +30,7 @@ type Op struct {
 	Name string  `json:"name"`
 	I    []int   `json:"i,omitempty"`
 	B    []int64 `json:"b,omitempty"`
+	U    bool    `json:"u,omitempty"` // third stream: call the concrete upper-case twin (MADDS, OUTER, EQUALS) by reflection
 }
 type Case struct {
 	Sparse bool    `json:"sparse"`
@@ -386,7 +387,11 @@ func execOp(sparse bool, tname string, view ad.Matrix, o Op, outdir string) (res
 			res = []int64{0}
 		}
 	default:
-		Die("unknown op %s", o.Name)
+		r, known := execXOp(tname, view, o) // third stream (xop.go)
+		if !known {
+			Die("unknown op %s", o.Name)
+		}
+		res = r
 	}
 	return res, false
 }
@@ -557,6 +562,13 @@ func main() {
 			return
 		}
 		c.Obs = execute(c, o.Out)
+		if isXOp(c.Op.Name) {
+			w := NewCaseWriter(o.Out, "replay", hdrX, "mismX", 1000)
+			w.Type = "xcase"
+			w.Add(coqXCase(c), c, "replay", true)
+			w.Flush()
+			return
+		}
 		w := NewCaseWriter(o.Out, "replay", hdr, "mism", 1000)
 		w.Type = "case"
 		w.Add(coqCase(c), c, "replay", true)
@@ -566,6 +578,7 @@ func main() {
 	w := NewCaseWriter(o.Out, "cases", hdr, "mism", 150)
 	w.Type = "case"
 	var corpusBin []BCase
+	var corpusX []Case
 	w.Rule = "base matrix <= 7x7 (distinct integer entries, ~15% zeros), a composition of 0-4 Slice/ConstSlice/T " +
 		"(10% of the slices overreach their parent: malformed stream), then one public operation, dense and sparse, " +
 		"element types Float64 Real64 Int Float32 Real32 Int64 Int32 Int16; observed: header before/after, result, elements " +
@@ -584,6 +597,10 @@ func main() {
 			}
 			if c.Bin != nil {
 				corpusBin = append(corpusBin, *c.Bin)
+				continue
+			}
+			if isXOp(c.Op.Name) {
+				corpusX = append(corpusX, c)
 				continue
 			}
 			c.Obs = execute(c, o.Out)
@@ -624,10 +641,36 @@ func main() {
 	if err := wb.Flush(); err != nil {
 		Die("%v", err)
 	}
+	// third stream: callbacks (Map / MapSet / Reduce / writing iterator), matrix-scalar, Outer, Equals, ConstDiag,
+	// typed readers on dense views
+	wx := NewCaseWriter(o.Out, "xcases", hdrX, "mismX", 150)
+	wx.Type = "xcase"
+	wx.Rule = "dense base matrix <= 7x7, a composition of 0-4 Slice/ConstSlice/T (10% overreaching), then Map / MapSet / the writing " +
+		"iterator with an order-sensitive stateful callback (state and new element depend on the old element and on the state), " +
+		"Reduce with a non-commutative callback, MaddS/MsubS/MmulS (receiver = operand, fresh receiver, fresh operand), Outer " +
+		"(1/12 wrong vector length), Equals against the denoted elements (2/3 with one element changed), ConstDiag with its " +
+		"alias test, all typed element readers; eight element types; observed as in the first stream. Non-trivial iff the view is a " +
+		"proper window or transposed and has at least 2 elements; distinct = distinct (type, shape, views, op, parameters)"
+	for _, c := range corpusX {
+		c.Obs = execute(c, o.Out)
+		wx.Add(coqXCase(c), c, "corpus:"+caseKey(c), true)
+		wx.Count("corpus")
+	}
+	rx := NewRng(o.Seed*1000003 + 4242).Split()
+	for k := 0; k < o.N*3/7; k++ {
+		c := genXCase(rx.Split(), k)
+		c.Obs = execute(c, o.Out)
+		wx.Add(coqXCase(c), c, caseKey(c), nontrivial(c))
+		countCase(wx, c)
+	}
+	wx.CountN("concrete-twin-calls(MADDS/MSUBS/MMULS/OUTER/EQUALS)", upperCalls)
+	if err := wx.Flush(); err != nil {
+		Die("%v", err)
+	}
 }
 
 func caseKey(c Case) string {
-	return fmt.Sprint(c.Sparse, c.Type, c.Rows, c.Cols, c.Views, c.Op.Name, c.Op.I)
+	return fmt.Sprint(c.Sparse, c.Type, c.Rows, c.Cols, c.Views, c.Op.Name, c.Op.I, c.Op.U)
 }
 func nontrivial(c Case) bool {
 	if c.Obs == nil || c.Obs.ViewsFail || len(c.Obs.Hdr0) < 7 {
